@@ -1216,15 +1216,18 @@ def slots_part(rep, thorough, label, rc=True):
     vcore.pdbh("slots-replay", {"in": inp, "out": outp})
     if not any(r["violations"] for r in vcore.read_ndjson(outp)):
         raise ToolError("slots-replay ACCEPTED a behaviour with a changed expected fill mark: the binding is not sensitive")
-    full = heads = 0
+    full = heads = nbad = 0
     for j, var in enumerate(["", "lz4"] + (["snappy"] if thorough else [])):
         results = generic_replay(rep, "slots-replay", behs if (thorough or j == 0) else behs[::2], {"variant": var}, "%s_sl%d" % (label, j), "slots-replay")
         full += sum(r.get("full_compares", 0) for r in results)
+        nbad += sum(1 for r in results if r["violations"])
         if var:
             heads += sum(r.get("compressed_heads", 0) for r in results)
     rep.extra["slot_address_comparisons"] = full
     rep.extra["compressed_chain_heads_seen"] = heads
-    if full < 100 or heads < 20:
+    # (a replay stops at its first disagreement: the coverage guard is meaningful only when every behaviour ran to its end,
+    # and it must not turn reported violations into a tool error)
+    if nbad == 0 and (full < 100 or heads < 20):
         raise ToolError("slots-replay compared %d complete layouts and met %d compressed chains: vacuous" % (full, heads))
     if rc:
         slots_rc_part(rep, thorough, label)
@@ -1678,8 +1681,9 @@ def c14(tier):
                       {"kind": "model", "cfg": "MC_MultiTree_crash_noleak", "tlc_tail": r["out"][-5000:]})
     for j, var in enumerate(["", "rc,pads", "direct"] + (["pads", "rc", "direct,pads"] if thorough else [])):
         vs = var.split(",")
+        # (every other variant with transactions that insert a tree and dereference another one - Swap)
         behs = mt_generate(rep, 80 if thorough else 12, 32, SEED * 31 + j, rc="rc" in vs, fine=False, shapes="ShapesWide",
-                           maxids=14, maxcommits=10, maxlocks=0, maxcrash=3, nt=3, nv=2)
+                           maxids=14, maxcommits=10, maxlocks=0, maxcrash=3, nt=3, nv=2, swap=(j % 2 == 1))
         rep.extra["tree_crashes_replayed"] = rep.extra.get("tree_crashes_replayed", 0) + sum(
             1 for b in behs for e in b["steps"] if e.get("a") == "Crash")
         generic_replay(rep, "mtree-replay", behs, {"seed": SEED + 90 + j, "variant": var}, "c14m_%d" % j, "mtree-replay")
